@@ -283,6 +283,16 @@ UNITS = [
       props={'memsafe': ['C13', 'C14'], 'ub': ['C13']},
       assumes=['plain symbolic execution of the real Parameter::write over the stream model (quick-tier counterpart of the DFCC unit '
                'B_Parameter_write_char1d)']),
+    U('B_Parameter_roundtrip_scalar', 'contracts/bounded_parameter_write.c', 'h_B_Parameter_roundtrip', [], ['C01', 'C04', 'C12', 'C03', 'C13'], mode='bmc',
+      defines=['VF_ROUNDTRIP', 'VF_ND=1', 'VF_RT_L=1', 'VF_RT_N=1', 'VF_RT_LOCKED=0', 'VF_RT_D=0'],
+      stubs={'c3d__readUint': 'stubv_readUint', 'c3d__readInt': 'stubv_readInt', 'c3d__readString': 'stubv_readString',
+             'vf_string_assign': 'stubv_string_assign', 'c3d__readParam__vsz_vfloat_sz': 'stubr_float_not_reached',
+             'c3d__readParam__vsz_vstr': 'stubr_string_not_reached'},
+      unwind=6, unwindset={'vf_stream_write.0': 6}, timeout=1200, level='B', object_bits=12,
+      bound='INT parameter (16-bit values), unlocked, name of 1 character, no description, a scalar; contents symbolic',
+      props={'memsafe': ['C13'], 'ub': ['C13']},
+      assumes=['plain symbolic execution of the real Parameter::write, then of the real Parameter::read + c3d::readParam on the bytes '
+               'written; read helpers = value stubs (their proved contracts)']),
     U('Parameters_write', WR, 'h_Parameters_write', ['Parameters__write/contract_Parameters__write'],
       ['C01', 'C03', 'C13', 'C14', 'C10'], replace=['Group__write/contract_abs_Group__write'], unwind=5, loops=True, timeout=900,
       pre_unwind={'vf_stream_write.0': 5, 'Parameters__write.0': 3},
